@@ -57,5 +57,5 @@ def main(ck):
                           "Lean carries the per-slot ratio / detailed balance for every weight table and the table-validity invariant")
     law_audits.run(ck, groups=['refine', 'ideal', 'heatbath', 'good'])   # idealised law of the executable model = the Markov kernel of the invariance theorems
     api_cov.run(ck, "c08")   # otherwise unexercised public API, model-free oracles of this property
-    scale_inv.run(ck, "c02", tags=["C08", "C09", "C01"])   # heat-bath-on scenarios: ANY call whose scaled twin diverges (sweep, cluster step, time step) breaks "heat-bath on still converges" (model-free twin oracle)
+    scale_inv.run(ck, "c02", tags=["C09", "C01", "C04"])   # heat-bath-on scenarios: ANY call whose scaled twin diverges (sweep, cluster step, time step) breaks "heat-bath on still converges" (model-free twin oracle)
     return ck.finish(RULE)
